@@ -101,7 +101,22 @@ def _bisect_shape(tree):
             subs.append((n.targets[0].id, ast.unparse(n.value.slice)))
     if sorted(subs) != [("end", "idx"), ("start", "idx - 1")]:
         raise T.TranslateError(f"_object_offset: fan-out subscripts changed: {subs}")
-    return inclusive, slack
+    # the arithmetic of the loop body: (start + end) // 2, i + 1, i - 1
+    body_ints = T.int_constants(loops[0])
+    if len(body_ints) != 3:
+        raise T.TranslateError(f"bisect_find_sha: expected 3 integer literals in the loop, found {body_ints}")
+    # what `start > end` does before the loop: `assert start <= end` (AssertionError -> 1) or
+    # `if start > end: raise ValueError` (-> 0); the model maps it to the error class
+    bad = None
+    for n in b.body:
+        if isinstance(n, ast.Assert) and ast.unparse(n.test) == "start <= end":
+            bad = 1
+        if isinstance(n, ast.If) and ast.unparse(n.test) == "start > end" and isinstance(n.body[0], ast.Raise) \
+                and "ValueError" in ast.unparse(n.body[0]):
+            bad = 0
+    if bad is None:
+        raise T.TranslateError("bisect_find_sha: no `start <= end` precondition found")
+    return inclusive, slack, body_ints, bad
 
 
 def translate(repo: Path) -> dict:
@@ -144,8 +159,7 @@ def translate(repo: Path) -> dict:
     if u2 != u3:
         raise T.TranslateError("PackIndex2/3._unpack_offset differ")
     ld = _ints(tree, "load_pack_index_file", 6)
-    bs = _ints(tree, "bisect_find_sha", 3)
-    inclusive, slack = _bisect_shape(tree)
+    inclusive, slack, bs, bad_bounds = _bisect_shape(tree)
     # struct formats of the v1 entry
     v1fmt = [n.value for n in ast.walk(T.find_def(tree, "write_pack_index_v1"))
              if isinstance(n, ast.Constant) and isinstance(n.value, str) and n.value.startswith(">")]
@@ -198,7 +212,7 @@ def translate(repo: Path) -> dict:
         "ofsEntryWidth": u2[0], "largeEntryWidth": u2[7],
         "loadMagicLen": ld[0], "loadVersionAt": ld[1], "loadVersionEnd": ld[2],
         "bisectDiv": bs[0], "bisectUp": bs[1], "bisectDown": bs[2],
-        "bisectInclusive": inclusive, "lookupEndSlack": slack,
+        "bisectInclusive": inclusive, "lookupEndSlack": slack, "bisectBadBoundsIsAssert": bad_bounds,
         "sha1Fmt": inv["SHA1"], "sha1Len": fmts["SHA1"][1], "sha256Fmt": inv["SHA256"], "sha256Len": fmts["SHA256"][1],
     }
     body = "".join(f"def {k} : Nat := {v}\n" for k, v in d.items())
@@ -705,7 +719,7 @@ def idx_case(ctx, stream, version, hs, es, cs, fmt=1, mode="", workers=None, mod
 
 def _stream_index(ctx, workers):
     rng = ctx.rng
-    n = ctx.budget(150)
+    n = ctx.budget(250)
     for i in range(n):
         version = rng.choice([1, 2, 2, 2, 3])
         hs = 32 if (version == 2 and rng.random() < 0.35) else 20
@@ -858,9 +872,15 @@ def gen_objects(rng, big_ok=True):
             elif objs and rng.random() < 0.3:
                 objs.append(rng.choice(objs))
         return objs
-    n = rng.choice([0, 1, 1, 2, 3, 5, 8, 13, 21, 40])
-    sizes = [0, 1, 15, 16, 17, 127, 128, 129, 2047, 2048, 2049, 300, 1000]
-    fam_base = pool[: rng.choice([40, 200, 700])]
+    # one length scale per set: every blob above 300 bytes is within ~300 bytes of `scale`
+    scale = rng.choice([40, 200, 200, 700, 1000, 2048, 2048])
+    n = rng.choice([0, 1, 1, 2, 3, 5, 8, 13, 21, 40] if scale <= 200 else [1, 2, 3, 5, 8, 13])
+    sizes = [0, 1, 15, 16, 17, 127, 128, 129, 255, 256, 300]
+    if scale == 2048:
+        sizes += [2047, 2048, 2049] * 3
+    elif scale == 1000:
+        sizes += [999, 1000, 1001]
+    fam_base = pool[:scale]
     fresh = 300                                                # budget of fresh random bytes in big-ish blobs
     dups = rng.random() < 0.1                                  # one set in ten passes some object twice
     while len(objs) < n:
@@ -928,6 +948,7 @@ def _shafile(ty, data):
 def build_records(objs, opts, scratch: Path):
     """The UnpackedObject list handed to write_pack_data, produced by the real code path named in opts."""
     import random
+    import shutil
     import dulwich.pack as P
     from dulwich.object_format import SHA1
     sub = random.Random(opts["sub"])
@@ -976,6 +997,7 @@ def build_records(objs, opts, scratch: Path):
             return list(src.iter_unpacked_subset([o.id for o in uniq], include_comp=True, convert_ofs_delta=True))
         finally:
             src.close()
+            shutil.rmtree(sd, ignore_errors=True)
     store = DiskObjectStore(str(sd))
     try:
         ids = [(o.id, None) for o in sf]
@@ -983,6 +1005,7 @@ def build_records(objs, opts, scratch: Path):
                                                 delta_window_size=opts["window"]))
     finally:
         store.close()
+        shutil.rmtree(sd, ignore_errors=True)
 
 
 def expected_mapping(objs):
@@ -1130,6 +1153,7 @@ def pack_case(ctx, stream, objs, opts, workers=None, model=True, git=False):
     for k, v in kinds.items():
         d[k] = d.get(k, 0) + v
     if not ok or cls is not None:
+        _rm_pack_files(base)
         return ok
     # ---------------- streaming reader under a random chunking of the same bytes
     try:
@@ -1155,12 +1179,16 @@ def pack_case(ctx, stream, objs, opts, workers=None, model=True, git=False):
         _pack_model(ctx, stream, case, recs, opts, pack, entries, idxb, names, absent, got_raw, abs_raw)
     if git:
         _git_reads_dulwich(ctx, stream + ".git", case, base, pack, idxb, opts, want, ies)
+    _rm_pack_files(base)
+    return ok
+
+
+def _rm_pack_files(base: str):
     for ext in (".pack", ".idx"):
         try:
             Path(base + ext).unlink()
         except OSError:
             pass
-    return ok
 
 
 def _pack_model(ctx, stream, case, recs, opts, pack, entries, idxb, names, absent, got_raw, abs_raw):
@@ -1388,8 +1416,8 @@ def git_pack_case(ctx, stream, objs, gopts):
 
 def _stream_packs(ctx, workers):
     rng = ctx.rng
-    n = ctx.budget(160)
-    ngit = ctx.budget(25, mult=6)
+    n = ctx.budget(260)
+    ngit = ctx.budget(30, mult=6)
     for i in range(n):
         objs = gen_objects(rng, big_ok=(i % 4 == 0))
         opts = gen_pack_opts(rng)
@@ -1402,7 +1430,7 @@ def _stream_packs(ctx, workers):
         for v in (1, 2, 3):
             opts = {"path": path, "deltify": True, "window": None, "level": -1, "version": v, "cache": None, "sub": 1, "chunked": False}
             pack_case(ctx, "pack", objs, opts, workers=workers, model=True, git=(v == 2))
-    for i in range(ctx.budget(12, mult=6)):
+    for i in range(ctx.budget(16, mult=6)):
         objs = gen_git_history(rng)
         gopts = {"depth": rng.choice([50, 50, 50, 10, 1]), "window": rng.choice([10, 10, 50]), "ofs": rng.random() < 0.5,
                  "idxv": rng.choice([None, None, 1]), "threads": rng.choice([1, 1, 1, None])}
